@@ -101,15 +101,17 @@ pub mod sync {
         pub fn class(&self) -> &str { &self.class }
 
         pub fn lock(&self) -> LockResult<MutexGuard<'_, T>> {
-            match self.inner.lock() {
+            let r = match self.inner.lock() {
                 Ok(g)   => Ok(MutexGuard { m: self, g: Some(g) }),
                 Err(p)  => Err(PoisonError::new(MutexGuard { m: self, g: Some(p.into_inner()) })),
-            }
+            };
+            super::log("acq", &self.class, self.id, String::new());
+            r
         }
 
         pub fn try_lock(&self) -> TryLockResult<MutexGuard<'_, T>> {
             match self.inner.try_lock() {
-                Ok(g)                           => Ok(MutexGuard { m: self, g: Some(g) }),
+                Ok(g)                           => { super::log("acq", &self.class, self.id, String::new()); Ok(MutexGuard { m: self, g: Some(g) }) },
                 Err(TryLockError::WouldBlock)   => { super::log("tryfail", &self.class, self.id, String::new()); Err(TryLockError::WouldBlock) },
                 Err(TryLockError::Poisoned(p))  => Err(TryLockError::Poisoned(PoisonError::new(MutexGuard { m: self, g: Some(p.into_inner()) }))),
             }
